@@ -6,7 +6,7 @@ check). Suite sizes are (quick, thorough) numbers of cases."""
 TRUSTED_BASE = [
     "Lean 4.33 kernel; axioms limited to propext, Classical.choice, Quot.sound (audited per theorem on every run); no native_decide / bv_decide / sorry",
     "statements: lean/ERP/Spec/* and the property files lean/ERP/Properties/* (the Lean reference printer and reference reader are cross-checked against the Python ones of the oracles by the printer / text suites)",
-    "translator harness/translate.py (regexes, constants, handler/event tables, region geometry expressions regenerated from /repo on every run)",
+    "translator harness/translate.py (regexes, constants, handler/event tables, region geometry and axis/arc-centre arithmetic regenerated from /repo on every run)",
     "correspondence harness (harness/suites.py, corr.py): the Float instance of the model is compared with the implementation on generated operation sequences, outputs and full state digest after every operation; differences its generators never produce are not seen",
     "CPython float()/repr()/math.* and Lean's Float agreeing on + - * / sqrt sin cos atan2 (checked continuously by the suites, not proved)",
     "theorems are about exact arithmetic over an ordered field (or the reals); IEEE rounding is outside every theorem",
